@@ -8,22 +8,79 @@ Import ListNotations.
 
 Definition expected_residual_facts (sel : select_axis) : residual_facts :=
   mkResidualFacts [UpdY0; UpdPars; UpdVars] sel FailInf true true.
-Definition expected_wrapper_facts : wrapper_facts := mkWrapperFacts true true true true true true true.
+Definition expected_wrapper_facts : wrapper_facts := mkWrapperFacts true true true true true true true [].
 Definition expected_fit_facts : fit_facts :=
   mkFitFacts DataFirst DataFirst true
     (expected_residual_facts SelDataIndex) (expected_residual_facts SelDataColumns) (expected_residual_facts SelDataColumns)
     expected_wrapper_facts expected_wrapper_facts expected_wrapper_facts
-    (1 # 1000000) (1000000 # 1) true true true.
+    (1 # 1000000) (1000000 # 1) true true true BatchValidated BatchValidated.
+
+Lemma pre_copy_expected k : wf_pre_copy (wr_facts expected_fit_facts k) = [].
+Proof. destruct k; reflexivity. Qed.
 
 Lemma input_untouched_expected ff : ff = expected_fit_facts ->
   forall (T : Type) (O : num_ops T) k S copy caller p0 mini,
     copy = None \/ copy = Some true -> fst (fit O ff k S copy caller p0 mini) = caller.
-Proof. intros -> T O k S copy caller p0 mini Hc. apply fit_input_untouched; [destruct k; reflexivity | destruct k; reflexivity | exact Hc]. Qed.
+Proof.
+  intros -> T O k S copy caller p0 mini Hc.
+  apply fit_input_untouched; [apply pre_copy_expected | destruct k; reflexivity | destruct k; reflexivity | exact Hc].
+Qed.
+
+Lemma reported_loss_expected ff : ff = expected_fit_facts ->
+  forall (T : Type) (O : num_ops T) k S copy caller p0 (mini : list (name * T) -> strat) after m x v,
+    honest [] (mini p0) ->
+    fit O ff k S copy caller p0 mini = (after, FitOk m x v) ->
+    snd (residual_step O ff k (route S caller p0) caller x) = RVal v.
+Proof. intros -> T O k S copy caller p0 mini after m x v. apply fit_reported_loss. apply pre_copy_expected. Qed.
+
+Lemma not_worse_than_start_expected ff : ff = expected_fit_facts ->
+  forall (T : Type) (O : num_ops T) (le : T -> T -> Prop) k S copy caller p0 kont after m x v,
+    (forall b, leaves_le le b (kont (RVal b))) ->
+    fit O ff k S copy caller p0 (fun p => Ask p kont) = (after, FitOk m x v) ->
+    snd (residual_step O ff k (route S caller p0) caller p0) = RInf
+    \/ exists b, snd (residual_step O ff k (route S caller p0) caller p0) = RVal b /\ le v b.
+Proof. intros -> T O le k S copy caller p0 kont after m x v. apply fit_not_worse_than_start. apply pre_copy_expected. Qed.
+
+Lemma scipy_not_worse_than_start_expected ff : ff = expected_fit_facts ->
+  forall (T : Type) (O : num_ops T) (le : T -> T -> Prop) (within : T * T -> T -> Prop) (clip1 : T * T -> T -> T)
+         k S copy caller p0 bounds (vkont : list (T * T) -> rloss -> vstrat) after m best loss,
+    (forall b v, within b v -> clip1 b v = v) ->
+    (forall n v, In (n, v) p0 -> within (bound_for O ff bounds n) v) ->
+    (forall bl b, vleaves_sat (fun _ f => le f b) (vkont bl (RVal b))) ->
+    fit O ff k S copy caller p0
+        (local_scipy_minimizer O ff (fun x0 bl => VAsk (clip_box clip1 bl x0) (vkont bl)) bounds) = (after, FitOk m best loss) ->
+    snd (residual_step O ff k (route S caller p0) caller p0) = RInf
+    \/ exists b, snd (residual_step O ff k (route S caller p0) caller p0) = RVal b /\ le loss b.
+Proof.
+  intros -> T O le within clip1 k S copy caller p0 bounds vkont after m best loss.
+  apply scipy_not_worse_than_start. apply pre_copy_expected.
+Qed.
+
+(** without copying: only the named entries of the caller's model can change *)
+Lemma without_copy_only_named_expected ff : ff = expected_fit_facts ->
+  forall (T : Type) (O : num_ops T) k (S : settings (T:=T)) caller p0 mini,
+    let S' := route S caller p0 in
+    let after := fst (fit O ff k S (Some false) caller p0 mini) in
+    keys (ms_pars after) = keys (ms_pars caller) /\ keys (ms_vars after) = keys (ms_vars caller) /\
+    (forall n, memN n (s_p_names S' ++ match k with KProtocol => s_proto_names S | _ => [] end) = false ->
+               lookup n (ms_pars after) = lookup n (ms_pars caller)) /\
+    (forall n, memN n (match s_y0 S with Some y0 => keys y0 | None => [] end ++ s_v_names S') = false ->
+               lookup n (ms_vars after) = lookup n (ms_vars caller)).
+Proof.
+  intros -> T O k S caller p0 mini S' after.
+  pose proof (fit_touches O expected_fit_facts k S caller p0 mini (pre_copy_expected k)) as [Hp Hv].
+  fold S' in Hp, Hv. fold after in Hp, Hv.
+  split; [eapply agree_keys; exact Hp|]. split; [eapply agree_keys; exact Hv|]. split.
+  - intros n Hn. eapply agree_lookup; [exact Hp|].
+    revert Hn. unfold Wp, wp_phases, proto_w. destruct k; simpl; rewrite ?app_nil_r; auto.
+  - intros n Hn. eapply agree_lookup; [exact Hv|].
+    revert Hn. unfold Wv, wv_phases. destruct k; simpl; rewrite ?app_nil_r; auto.
+Qed.
 
 Lemma residual_structure_expected ff : ff = expected_fit_facts ->
   forall (T : Type) (O : num_ops T) k S st u st1 st2 rows pred,
-    apply_phases S u [UpdY0; UpdPars; UpdVars] st = (st1, None) ->
-    simulate O k S st1 = (st2, SimRows rows) ->
+    apply_phases ff S u [UpdY0; UpdPars; UpdVars] st = (st1, None) ->
+    simulate O ff k S st1 = (st2, SimRows rows) ->
     prediction (match k with KSteady => SelDataIndex | _ => SelDataColumns end) k S rows = inl (Some pred) ->
     residual_step O ff k S st u =
       (st2, RVal (if s_scale S
@@ -70,3 +127,96 @@ Lemma nonvacuous_fit :
   fit QoOps expected_fit_facts KTimeCourse (ex_settings (loss_mean_squared QoOps)) None ex_caller ex_p0 probe_minimiser
   = (ex_caller, FitOk (mkState (al [(1%N, 1 # 2); (2%N, 1 # 2)]) (al [(10%N, 1)])) (al [(1%N, 2)]) (Some 0)).
 Proof. split; [apply probe_honest | vm_compute; reflexivity]. Qed.
+
+(** *** initial conditions: an example WITH a [y0] argument that differs from the caller's initial value *)
+Definition ex_settings_y0 (L : list oQ -> list oQ -> oQ) : settings (T:=oQ) :=
+  mkSettings [mkRxn 20%N (RConst 1%N) [(10%N, 1)]; mkRxn 21%N (RMassAct 2%N 10%N) [(10%N, -1)]]
+             [10%N] [0; 1 # 2; 1; 3 # 2] [map qv [3; 13 # 4; 55 # 16; 229 # 64]] (Some (al [(10%N, 3)])) [] [] false [] [] L.
+
+(** copying on: the private copy carries y0, the caller keeps its own initial value *)
+Lemma nonvacuous_fit_y0 :
+  fit QoOps expected_fit_facts KTimeCourse (ex_settings_y0 (loss_mean_squared QoOps)) None ex_caller ex_p0 probe_minimiser
+  = (ex_caller, FitOk (mkState (al [(1%N, 1 # 2); (2%N, 1 # 2)]) (al [(10%N, 3)])) (al [(1%N, 2)]) (Some 0)).
+Proof. vm_compute. reflexivity. Qed.
+
+(** the shape of seeded change C20-3: an early [model.update_variables(y0)] IN FRONT OF the copy guard *)
+Definition y0_first_fit_facts : fit_facts :=
+  let w := mkWrapperFacts true true true true true true true [UpdY0] in
+  mkFitFacts DataFirst DataFirst true
+    (expected_residual_facts SelDataIndex) (expected_residual_facts SelDataColumns) (expected_residual_facts SelDataColumns)
+    w w w (1 # 1000000) (1000000 # 1) true true true BatchValidated BatchValidated.
+Lemma y0_before_copy_reaches_caller :
+  exists k S caller p0 mini,
+    let r := fit QoOps y0_first_fit_facts k S None caller p0 mini in
+    ms_pars (fst r) = ms_pars caller /\ ms_vars (fst r) <> ms_vars caller /\
+    snd r = snd (fit QoOps expected_fit_facts k S None caller p0 mini).
+Proof.
+  exists KTimeCourse, (ex_settings_y0 (loss_mean_squared QoOps)), ex_caller, ex_p0, probe_minimiser.
+  vm_compute. split; [reflexivity|]. split; [discriminate | reflexivity].
+Qed.
+
+(** *** bounds: the probe optimiser answers inside its box; a start within its own bounds *)
+Definition oq_within (b : oQ * oQ) (v : oQ) : Prop :=
+  match fst b, snd b, v with
+  | Some lo, Some hi, Some x => Qle_bool lo x = true /\ Qle_bool x hi = true
+  | _, _, _ => False
+  end.
+Lemma oq_clip_id b v : oq_within b v -> oq_clip b v = v.
+Proof.
+  destruct b as [[lo|] [hi|]], v as [x|]; simpl; try contradiction. intros [H1 H2].
+  unfold oq_clip, Qlt_bool; simpl. rewrite H1. simpl. rewrite H2. reflexivity.
+Qed.
+
+Definition ex_settings2 (L : list oQ -> list oQ -> oQ) : settings (T:=oQ) :=
+  mkSettings [mkRxn 20%N (RConst 1%N) [(10%N, 1)]; mkRxn 21%N (RMassAct 2%N 10%N) [(10%N, -1)]]
+             [10%N] [0; 1 # 2; 1; 3 # 2] [map qv [1; 7 # 4; 37 # 16; 175 # 64]] None [] [] false [] [] L.
+(** p0 lists k_out (= 1/2) BEFORE k_in (= 1); only k_in -- the SECOND name -- is bounded, to (3/4, 3/2) *)
+Definition ex_p0_2 : alist := al [(2%N, 1 # 2); (1%N, 1)].
+Definition ex_bounds_2 : list (name * (oQ * oQ)) := [(1%N, (qv (3 # 4), qv (3 # 2)))].
+
+(** the construction of seeded change C20-1: user-bounded names first, then the rest of p0 with the default *)
+Definition user_first_bounds (ff : fit_facts) (bounds : list (name * (oQ * oQ))) (names : list name) : list (oQ * oQ) :=
+  map snd (filter (fun e => memN (fst e) names) bounds)
+  ++ map (fun _ => (Some (Qred (ff_bound_lo ff)), Some (Qred (ff_bound_hi ff))))
+         (filter (fun n => negb (memN n (keys bounds))) names).
+
+Lemma bounds_nonvacuous :
+  (forall n v, In (n, v) ex_p0_2 -> oq_within (bound_for QoOps expected_fit_facts ex_bounds_2 n) v) /\
+  aligned_bounds QoOps expected_fit_facts ex_bounds_2 (keys ex_p0_2)
+    = [(qv (1 # 1000000), qv (1000000 # 1)); (qv (3 # 4), qv (3 # 2))] /\
+  fit QoOps expected_fit_facts KTimeCourse (ex_settings2 (loss_mean_squared QoOps)) None ex_caller ex_p0_2
+      (local_scipy_minimizer QoOps expected_fit_facts vprobe ex_bounds_2)
+  = (ex_caller, FitOk (mkState (al [(1%N, 3 # 4); (2%N, 1 # 2)]) (al [(10%N, 1)])) (al [(2%N, 1 # 2); (1%N, 3 # 2)]) (Some (2409 # 16384))) /\
+  (* the user-first list puts k_in's interval on k_out: the start is moved although it lies within its own bounds *)
+  clip_box oq_clip (user_first_bounds expected_fit_facts ex_bounds_2 (keys ex_p0_2)) (map snd ex_p0_2) <> map snd ex_p0_2.
+Proof.
+  split; [|split; [|split]].
+  - intros n v [E|[E|[]]]; inversion E; subst; vm_compute; split; reflexivity.
+  - vm_compute. reflexivity.
+  - vm_compute. reflexivity.
+  - vm_compute. discriminate.
+Qed.
+
+(** *** batch editors: a rejected [update_variables(y0)] changes nothing (validated names, /repo 037a1c8) ... *)
+Lemma y0_rejected_expected ff : ff = expected_fit_facts ->
+  forall (T : Type) (S : settings (T:=T)) (u : list (name * T)) (st st' : mstate) (e : err),
+    apply_phase ff S u UpdY0 st = (st', Some e) -> st' = st.
+Proof. intros -> T S u st st' e. apply (y0_rejected_changes_nothing expected_fit_facts). reflexivity. Qed.
+
+(** ... whereas the plain fold (the code before 037a1c8) wrote the entries in front of the unknown name *)
+Definition fold_fit_facts : fit_facts :=
+  mkFitFacts DataFirst DataFirst true
+    (expected_residual_facts SelDataIndex) (expected_residual_facts SelDataColumns) (expected_residual_facts SelDataColumns)
+    expected_wrapper_facts expected_wrapper_facts expected_wrapper_facts
+    (1 # 1000000) (1000000 # 1) true true true BatchFold BatchFold.
+Definition ex_settings_bad_y0 (L : list oQ -> list oQ -> oQ) : settings (T:=oQ) :=
+  mkSettings [mkRxn 20%N (RConst 1%N) [(10%N, 1)]; mkRxn 21%N (RMassAct 2%N 10%N) [(10%N, -1)]]
+             [10%N] [0; 1 # 2; 1; 3 # 2] [map qv [1; 7 # 4; 37 # 16; 175 # 64]] (Some (al [(10%N, 3); (77%N, 1)])) [] [] false [] [] L.
+Lemma fold_y0_partial_write :
+  exists (S : settings (T:=oQ)) u st,
+    apply_phase fold_fit_facts S u UpdY0 st = (mkState (ms_pars st) (al [(10%N, 3)]), Some ErrKey) /\
+    ms_vars st = al [(10%N, 1)] /\
+    apply_phase expected_fit_facts S u UpdY0 st = (st, Some ErrKey).
+Proof.
+  exists (ex_settings_bad_y0 (loss_mean_squared QoOps)), ex_p0, ex_caller. vm_compute. repeat split; reflexivity.
+Qed.
